@@ -107,56 +107,59 @@ def check_flow(chk, rule, f, operands, what, loop_over=None):
 
 # ----------------------------------------------------------------- FF3 identity
 def mul_identity(chk, f, rule="FF3"):
-    """_MpsMpoParent.__mul__: new factor * scalar applied to A[0] == number * self.factor"""
+    """_MpsMpoParent.__mul__: on every path, (new factor) * (scalar applied to one site tensor) == number * self.factor, with the
+    modulus abs(number) kept in the factor; a zero modulus is not divided by.  Evaluated per path (if/else, hoisted stores and
+    temporaries make no difference); local names are read off the function."""
     fn = f.node
-    NUM, F_, AM = Rat(Poly.sym("number")), Rat(Poly.sym("F")), Rat(Poly.sym("am"))
-    env = {"am": AM}
-    ifs = [n for n in fn.body if isinstance(n, ast.If)]
-    if not ifs:
-        raise AnalysisError("__mul__: branch on am not found")
-    br = ifs[0]
-    am_def = [n for n in fn.body if isinstance(n, ast.Assign) and A.text(n.targets[0]) == "am"]
-    chk.verdict(rule, (f, am_def[0] if am_def else fn), am_def[0] if am_def else "am", True if am_def and A.text(am_def[0].value) == "abs(number)" else False,
-                "__mul__: the modulus kept in `factor` is not abs(number)")
-
-    def parse(stmts):
-        fac = scal = None
-        for st in stmts:
-            if isinstance(st, ast.Assign):
-                tt = A.text(st.targets[0])
-                if tt == "phi.factor":
-                    fac = st.value
-                elif tt.startswith("phi.A["):
-                    v = st.value
-                    if isinstance(v, ast.BinOp) and isinstance(v.op, ast.Mult):
-                        other = v.right if A.text(v.left).startswith("phi.A[") else v.left
-                        scal = other
-        return fac, scal
+    me, num = f.params[0], f.params[1]
+    body = A.strip_docstring(fn.body)
+    b = A.local_bindings(fn)
+    phis = [nm for nm, ds in b.items() for st, v, k in ds if k == "assign" and isinstance(v, ast.Call) and A.text(v.func) == f"{me}.shallow_copy"]
+    ams = [nm for nm, ds in b.items() for st, v, k in ds if k == "assign" and isinstance(v, ast.Call) and A.call_name(v) == "abs"
+           and len(v.args) == 1 and A.text(v.args[0]) == num]
+    chk.verdict(rule, f, f"modulus `{ams[0] if ams else '?'}` = abs({num})", True if ams else False, "__mul__: the modulus kept in `factor` is not abs(number)")
+    if not phis or not ams:
+        raise AnalysisError("__mul__: result object (shallow copy) or modulus not found")
+    phi, am = phis[0], ams[0]
+    NUM, F_, AM = Rat(Poly.sym(num)), Rat(Poly.sym("F")), Rat(Poly.sym(am))
 
     def to_rat(node):
+        import copy
+
         class R(ast.NodeTransformer):
             def visit_Attribute(self, n):
-                if A.text(n) == "self.factor":
+                if A.text(n) == f"{me}.factor":
                     return ast.Name(id="F", ctx=ast.Load())
                 return n
-        import copy
-        return from_ast(R().visit(copy.deepcopy(node)), env)
-    fac, scal = parse(br.body)
-    ok = False
-    why = "positive-modulus branch does not set phi.factor and scale phi.A[0]"
-    if fac is not None and scal is not None:
+        return from_ast(R().visit(copy.deepcopy(node)))
+    paths = [p_ for p_ in A.straightline_paths(body) if p_[2] is not None]
+    chk.require(len(paths) >= 2, "__mul__: paths for zero / non-zero modulus not found")
+    for conds, stores, ret in paths:
+        fac = stores.get(f"{phi}.factor")
+        scal = None
+        for tt, v in stores.items():
+            if tt.startswith(f"{phi}.A[") and isinstance(v, ast.BinOp) and isinstance(v.op, ast.Mult):
+                scal = v.right if A.text(v.left) == tt else (v.left if A.text(v.right) == tt else None)
+        ctext = " and ".join(("" if o else "not ") + A.text(t) for t, o in conds) or "always"
+        # does this path know that the modulus is non-zero?
+        nonzero = any((A.text(t) in (f"{am} > 0", f"{am} != 0", am) and o) or (A.text(t) in (f"{am} == 0", f"not {am}") and not o) for t, o in conds)
+        if fac is None:
+            chk.bad(rule, (f, ret), f"[{ctext}] {phi}.factor", f"__mul__: on the path [{ctext}] the factor of the result is not set")
+            continue
+        if scal is None:
+            ok = to_rat(fac).equals(AM * F_) and not nonzero
+            chk.verdict(rule, (f, ret), f"[{ctext}] factor = {A.text(fac)}, tensors unscaled", True if ok else False,
+                        f"__mul__: on the path [{ctext}] no site tensor is scaled although the modulus may be non-zero, or the factor is not "
+                        f"modulus * {me}.factor: scalar multiplication changes the represented state by a wrong amount")
+            continue
         prod = to_rat(fac) * to_rat(scal)
-        ok = prod.equals(NUM * F_)
-        why = f"new factor * scalar on the first tensor = {prod}, expected number*self.factor"
-    chk.verdict(rule, (f, br), f"am > 0: ({A.text(fac)}) * ({A.text(scal)}) == number * self.factor", True if ok else False,
-                f"__mul__: {why}: scalar multiplication changes the represented state by a wrong amount")
-    fac0, scal0 = parse(br.orelse)
-    ok0 = fac0 is not None and to_rat(fac0).equals(AM * F_)
-    chk.verdict(rule, (f, br), f"am == 0: phi.factor = {A.text(fac0)}", True if ok0 else False,
-                "__mul__: multiplication by zero does not zero the factor")
-    cond = A.text(br.test)
-    chk.verdict(rule, (f, br), f"branch condition `{cond}`", True if cond in ("am > 0", "am != 0", "am") else False,
-                "__mul__: the phase number/am is computed without excluding am == 0")
+        ok = prod.equals(NUM * F_) and to_rat(fac).equals(AM * F_)
+        chk.verdict(rule, (f, ret), f"[{ctext}] ({A.text(fac)}) * ({A.text(scal)}) == {num} * {me}.factor", True if ok else False,
+                    f"__mul__: on the path [{ctext}] new factor * scalar on the site tensor = {prod}, expected {num}*{me}.factor with the modulus "
+                    f"in the factor: scalar multiplication changes the represented state by a wrong amount")
+        divides = any(isinstance(x, ast.BinOp) and isinstance(x.op, ast.Div) and A.text(x.right) == am for x in ast.walk(scal))
+        chk.verdict(rule, (f, ret), f"[{ctext}] division by the modulus only where it is non-zero", True if (not divides or nonzero) else False,
+                    "__mul__: the phase number/am is computed without excluding am == 0")
 
 
 # ------------------------------------------------------- FF4 division / factor pairing
@@ -251,37 +254,86 @@ def check_division_pairing(chk, f, rule="FF4", exceptions=()):
 
 
 # ------------------------------------------------------------- FF5 discarded weights
+def inline_simple_calls(prog, f, expr, depth=2):
+    """replace calls of repository functions whose body is a single `return <expr>` by that expression (arguments substituted)"""
+    import copy
+    from ..core.loader import FuncInfo
+    if depth <= 0:
+        return expr
+
+    class T(ast.NodeTransformer):
+        def visit_Call(self, c):
+            self.generic_visit(c)
+            if isinstance(c.func, ast.Name) and not c.keywords and not any(isinstance(a_, ast.Starred) for a_ in c.args):
+                tgt = prog.resolve(f.module, c.func.id)
+                if isinstance(tgt, FuncInfo):
+                    body = A.strip_docstring(tgt.node.body)
+                    if len(body) == 1 and isinstance(body[0], ast.Return) and body[0].value is not None and len(tgt.params) == len(c.args):
+                        sub = dict(zip(tgt.params, c.args))
+
+                        class S(ast.NodeTransformer):
+                            def visit_Name(self, n):
+                                return copy.deepcopy(sub[n.id]) if n.id in sub and isinstance(n.ctx, ast.Load) else n
+                        return inline_simple_calls(prog, tgt, S().visit(copy.deepcopy(body[0].value)), depth - 1)
+            return c
+    return T().visit(copy.deepcopy(expr))
+
+
 def check_discarded_composition(chk, f, rule="FF5"):
+    """a loop-carried accumulator (initialised to zero, updated from itself and one local weight, returned through a square root)
+    composes as acc + x - acc*x; helper functions consisting of one return expression are inlined"""
     fn = f.node
+    prog = chk.prog
     ACC, X = Rat(Poly.sym("acc")), Rat(Poly.sym("x"))
     want = ACC + X - ACC * X
     found = 0
+    b = A.local_bindings(fn)
+    par = A.enclosing_map(fn)
     for n in A.walk_local(fn, include_self=False):
-        if isinstance(n, ast.Assign) and isinstance(n.targets[0], ast.Name) and n.targets[0].id in {x.id for x in ast.walk(n.value) if isinstance(x, ast.Name)}:
-            acc = n.targets[0].id
-            others = {x.id for x in ast.walk(n.value) if isinstance(x, ast.Name)} - {acc}
-            if len(others) != 1 or "discarded" not in acc:
-                continue
-            loc = others.pop()
-            try:
-                got = from_ast(n.value, {acc: ACC, loc: X})
-            except NotPolynomial:
-                continue
-            found += 1
-            chk.verdict(rule, (f, n), n, True if got.equals(want) else False,
-                        f"{f.short}: discarded weights must compose as 1-(1-a)(1-x) = a + x - a*x; found {got}: the reported truncation "
-                        f"error of the sweep is not the true relative error")
-            # x is the square of the local weight; the result is the square root of the accumulator
-            ldef = [v for s_, v, k in A.local_bindings(fn).get(loc, []) if v is not None]
-            sq = any(isinstance(v, ast.BinOp) and isinstance(v.op, ast.Pow) and A.neg_const(v.right) == 2 or
-                     isinstance(v, ast.IfExp) and isinstance(v.body, ast.BinOp) and isinstance(v.body.op, ast.Pow) and A.neg_const(v.body.right) == 2
-                     for v in ldef)
-            chk.verdict(rule, (f, n), f"{loc} is a squared weight", True if sq else False,
-                        f"{f.short}: `{loc}` is not the square of the local discarded weight")
-            rets = [r for r in A.returns_of(fn) if r.value is not None]
-            rt = " ".join(A.text(r.value) for r in rets)
-            chk.verdict(rule, (f, rets[-1]), rets[-1].value, True if f"{acc} ** 0.5" in rt or f"sqrt({acc})" in rt else False,
-                        f"{f.short}: the accumulated squared weight is not converted back by a square root")
+        if not (isinstance(n, ast.Assign) and isinstance(n.targets[0], ast.Name)):
+            continue
+        acc = n.targets[0].id
+        val = inline_simple_calls(prog, f, n.value)
+        names = {x.id for x in ast.walk(val) if isinstance(x, ast.Name)}
+        if acc not in names:
+            continue
+        others = names - {acc}
+        in_loop = False
+        cur = n
+        while cur in par:
+            cur = par[cur]
+            if isinstance(cur, (ast.For, ast.While)):
+                in_loop = True
+        zero_init = any(k == "assign" and v is not None and A.neg_const(v) == 0 for st, v, k in b.get(acc, []) if st is not n)
+        if len(others) != 1 or not in_loop or not zero_init:
+            continue
+        loc = others.pop()
+        try:
+            got = from_ast(val, {acc: ACC, loc: X}, opaque=False)
+        except NotPolynomial:
+            continue
+        found += 1
+        chk.verdict(rule, (f, n), n, True if got.equals(want) else False,
+                    f"{f.short}: discarded weights must compose as 1-(1-a)(1-x) = a + x - a*x; found {got}: the reported truncation "
+                    f"error of the sweep is not the true relative error")
+        # x is the square of the local weight; the result is the square root of the accumulator
+        ldef = [v for s_, v, k in b.get(loc, []) if v is not None]
+        sq = any(isinstance(v, ast.BinOp) and isinstance(v.op, ast.Pow) and A.neg_const(v.right) == 2 or
+                 isinstance(v, ast.IfExp) and isinstance(v.body, ast.BinOp) and isinstance(v.body.op, ast.Pow) and A.neg_const(v.body.right) == 2
+                 for v in ldef)
+        chk.verdict(rule, (f, n), f"{loc} is a squared weight", True if sq else False,
+                    f"{f.short}: `{loc}` is not the square of the local discarded weight")
+        rets = [r for r in A.returns_of(fn) if r.value is not None]
+
+        def is_sqrt_of_acc(e):
+            for x in ast.walk(e):
+                if isinstance(x, ast.BinOp) and isinstance(x.op, ast.Pow) and A.text(x.left) == acc and A.neg_const(x.right) == 0.5:
+                    return True
+                if isinstance(x, ast.Call) and (A.call_name(x) or "").split(".")[-1] == "sqrt" and x.args and A.text(x.args[0]) == acc:
+                    return True
+            return False
+        chk.verdict(rule, (f, rets[-1]), rets[-1].value, True if any(is_sqrt_of_acc(r.value) for r in rets) else False,
+                    f"{f.short}: the accumulated squared weight is not converted back by a square root")
     if not found:
         raise AnalysisError(f"{f.short}: accumulator update of discarded weights not found")
 
